@@ -282,7 +282,7 @@ def run(chk):
 					continue
 				for rep in range(1 if chk.quick() else 3):
 					chk.case("pair", {"deriv": dname, "write": w, "side": side, "seed": rng.randrange(10**9), "n": rng.choice([1, 2, 3, 4])}, "pair")
-	nh = 150 if chk.quick() else 1500
+	nh = 150 if chk.quick() else 500
 	for i in range(nh):
 		chk.case("history", {"seed": rng.randrange(10**9), "nsteps": rng.choice([15, 30, 30, 60]) if not chk.quick() else rng.choice([15, 30]),
 			"profile": rng.choice(["mixed", "mixed", "tables"])}, "history")
